@@ -41,8 +41,8 @@ import shutil
 from vlib import env
 
 THEOREMS = [
-    "step_error_unchanged", "reopen_id", "run_append", "changesOf_self", "commit_status_empty",
-    "status_sound_complete", "revert_restores", "run_ver_subset_partial",
+    "reopen_id", "run_append", "step_error_unchanged_partial", "mkdir_error_witness", "changesOf_self",
+    "commit_status_empty", "status_sound_complete", "revert_restores", "revert_only_basis", "git_rename_after_witness",
 ]
 RULE = ("case = (format, op sequence generated adaptively from the real tree, with re-open at random points); compared after "
         "every step; distinct by (format, canonical op list); non-trivial = at least 3 successful mutating ops and one of "
